@@ -145,6 +145,36 @@ def check_event_uniqueness(P, r6):
             r6.bad(V(r6.id, f.id, "no-uniqueness-by-identifier", "no uniqueness step keyed on the generated function name: `ev-one` and `ev_one` both become onEvOne"))
 
 
+def check_symbol_table_keys(P, rule):
+    """writer/reader agreement of the event parser's variable→type table: the spelling under which a parameter or binding is recorded is the spelling
+    under which the payload variable is looked up (both the identifier's text, or both its unraw()'d text).  Recorded one way and looked up the other,
+    a variable named `r#move` is never found and its *name* is emitted as the payload type.  Shared by C12-D7 and C01-D4."""
+    SPELL = {"unraw", "to_lowercase", "to_uppercase", "trim", "trim_start_matches", "trim_matches", "replace", "to_ascii_lowercase"}
+    forms = {"insert": set(), "get": set()}
+    n = 0
+    for fid in sorted(P.fns):
+        if not fid.startswith("tauri_typegen::analysis::event_parser::") and not fid.startswith("tauri_typegen::analysis::symbol_table::") or "{promoted#" in fid:
+            continue
+        f = P.fns[fid]
+        for c in f.calls:
+            if c.bb not in f.reach_blocks or short_path(c.path) not in ("HashMap::insert", "HashMap::get", "HashMap::contains_key") or len(c.args) < 2:
+                continue
+            if c.generics[:2] != ["std::string::String", "std::string::String"]:
+                continue
+            n += 1
+            fed = f.feeding_calls(c.args[1], depth=7)
+            form = tuple(sorted(x.split("::")[-1] for x in fed if x.split("::")[-1] in SPELL))
+            forms["insert" if c.name == "insert" else "get"].add(form)
+    if not forms["insert"] or not forms["get"]:
+        rule.bad(V(rule.id, "<anchor>", "missing:symbol-table-sites", "writers or readers of the event parser's symbol table not found (%d sites)" % n))
+    elif forms["insert"] == forms["get"] and len(forms["insert"]) == 1:
+        rule.ok("symbol table: recorded and looked up under the same spelling (%s)" % (", ".join(next(iter(forms["insert"]))) or "identifier text"))
+    else:
+        rule.bad(V(rule.id, "EventParser", "symbol-key-spelling:%s≠%s" % (sorted(forms["insert"]), sorted(forms["get"])),
+                   "variables are recorded under %s but looked up under %s: a raw-identifier variable (r#move) is never found and its name is emitted as the payload type"
+                   % (sorted(forms["insert"]), sorted(forms["get"]))))
+
+
 def check(ctx):
     P = ctx.P
     S = ctx.S
@@ -595,6 +625,7 @@ def check(ctx):
                 r7.ok("%s: listener typed with %s" % (part_, h_))
             else:
                 r7.bad(V(r7.id, part_, "listener-type-source:%s" % h_, "the listener is typed with `%s`, not with the qualified TypeScript rendering of the payload type" % h_))
+    check_symbol_table_keys(P, r7)
     r7.require_floor(8, "payload typing facts")
     rules.append(r7)
 
